@@ -42,6 +42,7 @@ var targetClasses = []struct {
 	{"scheme-in-path", []string{"/http://{E}", "/http:/{E}", "/javascript:alert(1)", "/x/http:%2f%2f{E}", "/https:{E}", "/http:%5c%5c{E}", "/:{E}", "/data:text/html,{W}"}},
 	{"non-url-bytes", []string{"/{W}|{W}", "/a%2fb|{W}", "/{W}^{W}?x=^", "/{W}\"{W}", "/<{W}>", "/{{W}}", "/`{W}", "/%2f|/{E}", "/a%3bb|c", "/[{W}]", "/{W}!$&'()*+,;=:@"}},
 	{"own-paths", []string{"/oauth2/callback/../{W}", "/oauth2//callback", "/oauth2/sign_out/..//{E}", "/oauth2/{W}", "/ping/../{W}", "/oauth2/callbackx?state=1", "/robots.txt/..//{E}"}},
+	{"enc-delims", []string{"/x%23//{E}", "/%23@{E}", "/{W}%23/../..//{E}", "/x?a=%23//{E}", "/%2523{E}", "/x%3f//{E}", "/{W}%3F%2F%2F{E}", "/x%3b@{E}", "/%23", "/{W}%23{W}?x=%23"}},
 	{"abs-own", []string{"http://{H}/{W}?q={W}", "http://{H}", "http://{H}?x={W}", "HTTP://{H}/", "http://{H}/", "http://{H}/{W}/", "https://{H}/{W}", "http://{H}/{W}#frag", "hTtP://{H}/{W}?a=1&b=2"}},
 	{"abs-own-hostile", []string{"http://{H}//{E}/", "http://{H}/\\{E}", "http://{H}/%2f%2f{E}", "http://{H}/.//{E}", "http://{H}/a/../../{E}", "http://{H}/%5c{E}", "http://{H}///{E}/..", "http://{H}/?//{E}", "http://{H}/\\\\{E}/", "http://{H}//{E}/%2e%2e", "http://{H}/%09/{E}"}},
 	{"abs-other-host", []string{"http://{H}@{E}/", "http://{E}/", "http://{H}.{E}/", "http://{HU}/", "http://{H}:80/", "http://{H}:81/{W}", "http://{H}./", "http://{E}\\@{H}/", "http://{H}%2f@{E}/", "http://{H}%00.{E}/"}},
